@@ -59,7 +59,7 @@ def main():
             row = M.get(sid, {})
             for c in checks:
                 t0 = time.time()
-                rc, o = sh('./check %s --tier quick' % c, cwd=V, env=dict(os.environ, MIASMX_REPO=wt))
+                rc, o = sh('./check %s --tier quick' % c, cwd=V, env=dict(os.environ, MIASMX_REPO=wt, VERIF_REPLAYS='/dev/shm/mx-matrix', VERIF_EVIDENCE='/dev/shm/mx-matrix'))
                 nv = sum(1 for l in o.splitlines() if l.startswith('VIOLATION'))
                 more = [l for l in o.splitlines() if l.startswith('... ')]
                 row[c] = {'rc': rc, 'violations': nv, 'wall_s': round(time.time() - t0, 1)}
